@@ -187,7 +187,9 @@ YAlt2 == <<0, 0 - 4, 7, 0 - 1, 2>>      \* states may be negative: sign tests in
 Points ==
     <<[y |-> M!InitialValues(c), t |-> 0, default |-> TRUE],
       [y |-> [v \in M!VarSet(c) |-> YAlt1[CHOOSE j \in DOMAIN c.vars : c.vars[j] = v]], t |-> 2, default |-> FALSE],
-      [y |-> [v \in M!VarSet(c) |-> YAlt2[CHOOSE j \in DOMAIN c.vars : c.vars[j] = v]], t |-> 5, default |-> FALSE]>>
+      [y |-> [v \in M!VarSet(c) |-> YAlt2[CHOOSE j \in DOMAIN c.vars : c.vars[j] = v]], t |-> 5, default |-> FALSE],
+      \* the declared initial state at a later time: what the forms answer when the caller gives a time and no state
+      [y |-> M!InitialValues(c), t |-> 3, default |-> FALSE]>>
 
 \* exact Jacobian: entry [i][j] = d rhs_i / d var_j at (y, t), by seeding variable j with derivative 1
 JacAt(cc, y, t) ==
